@@ -35,8 +35,8 @@ func checkC10(p *Program, c *Check) {
 		"SHR-1: every store/map update/copy/delete/in-place sort/decode/PRNG advance/sync operation in functions reachable from decideHandler and functionsHandler targets request-local memory " +
 		"(may-point-to-shared analysis: globals, objects allocated by initialisers, receivers of singleton types, values loaded from them, captured variables of initialiser-created closures; " +
 		"resolved interprocedurally over request-path call sites); SHR-2: factories return fresh objects and every decode target is request-local; " +
-		"SHR-4: globals are assigned only by initialisers and hold no random source; ND-1: no goroutines/channels in the library; ND-2: each generator owns a source created from the request seed."
-	c.NotDecided = "data races inside gin/net/http/log (third-party, assumed race-free); scheduler-dependent timing; that responses equal the sequential ones beyond what C02's exclusion argument gives"
+		"SHR-4: globals are assigned only by initialisers and hold no random source; ND-1: no goroutines/channels in the library; ND-2: each generator owns a source created from the request seed; ND-3/ND-4/ND-5: no dependence on map iteration order (a request has one response to be equal to)."
+	c.NotDecided = "data races inside gin/net/http/log (third-party, assumed race-free); scheduler-dependent timing; that responses equal the sequential ones beyond what the exclusion argument gives"
 	c.Assumptions = []string{"mapstructure.Decode writes only into its target argument", "jsonschema.Reflector.Reflect only reads the prototype value it is given"}
 	funcs := p.requestPath(true)
 	sh := NewSharedInfo(p)
@@ -45,6 +45,10 @@ func checkC10(p *Program, c *Check) {
 	ruleSHR4(p, c)
 	ruleND1(p, c, funcs)
 	ruleND2(p, c, funcs)
+	// "exactly the responses the same requests produce one at a time" presupposes that a request has one response
+	ruleND3(p, c, funcs)
+	ruleND4(p, c, funcs)
+	ruleND5(p, c, funcs)
 	ruleE5(p, c, 1) // factories, constructors, handlers and registries against their references
 	c.Extra["shared_types"] = sortedKeys(sh.SharedTypes)
 }
